@@ -309,6 +309,94 @@ func GenLeaf(r *hx.Rng, kind string) []byte {
 		}
 		n := r.Intn(12)
 		return Box(kind, Cat(body, U32(uint32(n)), r.Bytes(n, nil)))
+	case "url ":
+		if r.Intn(3) == 0 {
+			return Box(kind, vf(0, 1))
+		}
+		loc := r.Bytes(r.Intn(10), []byte("abc/:.x"))
+		if r.Intn(4) != 0 {
+			loc = append(loc, 0)
+		}
+		return Box(kind, Cat(vf(byte(r.Intn(2)), uint32(r.Intn(2))), loc))
+	case "avcC":
+		prof := byte(r.Pick(66, 77, 88, 100, 110, 122, 244))
+		nalus := func(n int) []byte {
+			var o []byte
+			for i := 0; i < n; i++ {
+				k := r.Intn(12)
+				o = Cat(o, U16(uint16(k)), r.Bytes(k, nil))
+			}
+			return o
+		}
+		ns, np := r.Intn(3), r.Intn(3)
+		body := Cat([]byte{1, prof, byte(r.U64()), byte(r.U64()), 0xff, 0xe0 | byte(ns)}, nalus(ns), []byte{byte(np)}, nalus(np))
+		if prof != 66 && prof != 77 && prof != 88 && r.Intn(5) != 0 {
+			body = Cat(body, []byte{0xfc | byte(r.Intn(4)), 0xf8 | byte(r.Intn(8)), 0xf8 | byte(r.Intn(8)), 0})
+		}
+		return Box(kind, body)
+	case "btrt":
+		return Box(kind, Cat(U32(r32(r)), U32(r32(r)), U32(r32(r))))
+	case "pasp":
+		return Box(kind, Cat(U32(r32(r)), U32(r32(r))))
+	case "clap":
+		var body []byte
+		for i := 0; i < 8; i++ {
+			body = append(body, U32(r32(r))...)
+		}
+		return Box(kind, body)
+	case "cslg":
+		if r.Bool() {
+			return Box(kind, Cat(vf(0, 0), U32(r32(r)), U32(r32(r)), U32(r32(r)), U32(r32(r)), U32(r32(r))))
+		}
+		return Box(kind, Cat(vf(1, 0), U64(r64(r)), U64(r64(r)), U64(r64(r)), U64(r64(r)), U64(r64(r))))
+	case "colr":
+		switch r.Intn(4) {
+		case 0:
+			return Box(kind, Cat([]byte("nclx"), U16(uint16(r.Intn(20))), U16(uint16(r.Intn(20))), U16(uint16(r.Intn(20))), []byte{byte(r.Pick(0, 0x80))}))
+		case 1:
+			return Box(kind, Cat([]byte("nclc"), U16(uint16(r.Intn(20))), U16(uint16(r.Intn(20))), U16(uint16(r.Intn(20)))))
+		case 2:
+			return Box(kind, Cat([]byte([]string{"rICC", "prof"}[r.Intn(2)]), r.Bytes(r.Intn(20), nil)))
+		}
+		return Box(kind, Cat([]byte("abcd"), r.Bytes(r.Intn(9), nil)))
+	case "schm":
+		if r.Bool() {
+			return Box(kind, Cat(vf(0, 0), []byte([]string{"cenc", "cbcs"}[r.Intn(2)]), U32(0x10000)))
+		}
+		return Box(kind, Cat(vf(0, 1), []byte("cenc"), U32(r32(r)), r.Bytes(r.Intn(9), []byte("urn:x")), []byte{0}))
+	case "stsd":
+		n := r.Intn(3)
+		body := Cat(vf(0, 0), U32(uint32(n)))
+		for i := 0; i < n; i++ {
+			body = append(body, GenLeaf(r, []string{"avc1", "avc3", "hvc1", "hev1", "encv", "mp4a", "enca"}[r.Intn(7)])...)
+		}
+		return Box(kind, body)
+	case "dref":
+		n := r.Intn(3)
+		body := Cat(vf(0, 0), U32(uint32(n)))
+		for i := 0; i < n; i++ {
+			body = append(body, GenLeaf(r, "url ")...)
+		}
+		return Box(kind, body)
+	case "avc1", "avc3", "hvc1", "hev1", "encv":
+		name := r.Bytes(r.Intn(32), []byte("mp4ff video"))
+		body := Cat(make([]byte, 6), U16(1), make([]byte, 16), U16(uint16(r.U64())), U16(uint16(r.U64())), U32(0x480000), U32(0x480000),
+			make([]byte, 4), U16(1), []byte{byte(len(name))}, name, make([]byte, 31-len(name)), U16(0x18), U16(0xffff))
+		if kind == "avc1" || kind == "avc3" || kind == "encv" {
+			body = append(body, GenLeaf(r, "avcC")...)
+		}
+		for _, k := range []string{"btrt", "pasp", "colr", "clap", "zzzz"} {
+			if r.Intn(3) == 0 {
+				body = append(body, GenLeaf(r, k)...)
+			}
+		}
+		return Box(kind, body)
+	case "mp4a", "enca":
+		body := Cat(make([]byte, 6), U16(1), make([]byte, 8), U16(2), U16(16), make([]byte, 4), U32(uint32(r.Pick(44100, 48000, 22050))<<16))
+		if r.Intn(2) == 0 {
+			body = append(body, GenLeaf(r, "btrt")...)
+		}
+		return Box(kind, body)
 	}
 	return Box("zzzz", r.Bytes(r.Intn(12), nil))
 }
@@ -337,8 +425,8 @@ func GenTree(r *hx.Rng) []byte {
 	}
 	trak := func() []byte {
 		return Box("trak", Cat(GenLeaf(r, "tkhd"), extra(),
-			Box("mdia", Cat(GenLeaf(r, "mdhd"), GenLeaf(r, "hdlr"), Box("minf", Cat(GenLeaf(r, []string{"vmhd", "smhd", "nmhd", "sthd"}[r.Intn(4)]), Box("dinf", nil),
-				Box("stbl", Cat(GenLeaf(r, "stts"), GenLeaf(r, "ctts"), GenLeaf(r, "stsc"), GenLeaf(r, "stsz"),
+			Box("mdia", Cat(GenLeaf(r, "mdhd"), GenLeaf(r, "hdlr"), Box("minf", Cat(GenLeaf(r, []string{"vmhd", "smhd", "nmhd", "sthd"}[r.Intn(4)]), Box("dinf", GenLeaf(r, "dref")),
+				Box("stbl", Cat(GenLeaf(r, "stsd"), GenLeaf(r, "stts"), GenLeaf(r, "ctts"), GenLeaf(r, "stsc"), GenLeaf(r, "stsz"),
 					GenLeaf(r, []string{"stco", "co64"}[r.Intn(2)]), GenLeaf(r, "stss"), GenLeaf(r, "sdtp")))))))))
 	}
 	mvex := Box("mvex", Cat(GenLeaf(r, "trex"), GenLeaf(r, "trex")))
@@ -357,7 +445,8 @@ func GenTree(r *hx.Rng) []byte {
 var GenKinds = []string{"ftyp", "styp", "free", "skip", "mdat", "mfhd", "tfhd", "tfdt", "trun", "mvhd", "tkhd", "sidx",
 	"trex", "mdhd", "hdlr", "stts",
 	"stsc", "stsz", "stco", "stss", "co64", "sdtp", "ctts", "elst", "saiz", "saio", "sbgp", "prft", "tenc", "frma", "vmhd",
-	"smhd", "nmhd", "sthd", "mfro", "mehd", "tfra", "pssh"}
+	"smhd", "nmhd", "sthd", "mfro", "mehd", "tfra", "pssh",
+	"url ", "avcC", "btrt", "pasp", "colr", "clap", "schm", "cslg", "stsd", "dref", "avc1", "avc3", "hvc1", "hev1", "encv", "mp4a", "enca"}
 
 // Exhaustive returns well-formed boxes covering EVERY combination of the optional-field flag bits of the
 // boxes that have them (trun: 6 bits x version 0/1 x 0,1,3 samples; tfhd: 7 bits; tfdt, sidx, mvhd, tkhd,
